@@ -376,33 +376,38 @@ def query_histories(subj_len, arg_len, holders):
     """every small byte string as argument of every query op, on every small subject"""
     hs = []
     args = small_strings(arg_len)
+    chunks = [args[i:i + 10] for i in range(0, len(args), 10)]
     for subj in small_strings(subj_len):
+        n = len(unhex(subj))
         for hold in holders:
-            h = [f"ptr 0 {subj}"]
+            pre = [f"ptr 0 {subj}"]
             target = 0
             if hold == "shared":
-                h += ["assign 1 0"]
+                pre += ["assign 1 0"]
             elif hold == "copy":
-                h += ["copy 1 0", "new 0"]
+                pre += ["copy 1 0", "new 0"]
                 target = 1
-            n = len(unhex(subj))
-            for a in args:
-                for q in QUERY1:
-                    h.append(f"{q} {target} x{a}")
-                h.append(f"compareN {target} x{a} {len(unhex(a))}")
-                h.append(f"compareICN {target} x{a} {max(0, n - 1)}")
-                for q in QUERYS:
-                    if q == "trim":
-                        h += [f"assign 2 {target}", f"trim 2 {a}"]
-                    elif q == "split":
-                        h += [f"split {target} {a} 0", f"split {target} {a} 1"]
-                    else:
-                        h.append(f"{q} {target} {a}")
-                for st in range(0, n + 1):
-                    h.append(f"findSFrom {target} {a} {st}")
-                    h.append(f"findOneOfFrom {target} {a} {st}")
-                    h.append(f"tokenS 2 {target} {a} {st}")
-                h += [f"assign 2 {target}", f"replaceL 2 {a} 2f2f", f"assign 2 {target}", f"replaceL 2 6261 {a}"]
+            for chunk in chunks:
+                h = list(pre)
+                for a in chunk:
+                    for q in QUERY1:
+                        h.append(f"{q} {target} x{a}")
+                    h.append(f"compareN {target} x{a} {len(unhex(a))}")
+                    h.append(f"compareICN {target} x{a} {max(0, n - 1)}")
+                    for q in QUERYS:
+                        if q == "trim":
+                            h += [f"assign 2 {target}", f"trim 2 {a}"]
+                        elif q == "split":
+                            h += [f"split {target} {a} 0", f"split {target} {a} 1"]
+                        else:
+                            h.append(f"{q} {target} {a}")
+                    for st in range(0, n + 1):
+                        h.append(f"findSFrom {target} {a} {st}")
+                        h.append(f"findOneOfFrom {target} {a} {st}")
+                        h.append(f"tokenS 2 {target} {a} {st}")
+                    h += [f"assign 2 {target}", f"replaceL 2 {a} 2f2f", f"assign 2 {target}", f"replaceL 2 6261 {a}"]
+                hs.append(h)
+            h = list(pre)
             for c in ALPHA + [0x41]:
                 h += [f"findC {target} {c}", f"findLastC {target} {c}"]
                 for st in range(0, n + 2):
